@@ -79,72 +79,100 @@ def extract(repo=None, features="all", verbose=False):
     tag = "%s-%s" % (key, features.replace(",", "+").replace(":", "_"))
     fdir = os.path.join(CACHE, "facts", tag)
     os.makedirs(os.path.join(CACHE, "facts"), exist_ok=True)
-    lock = open(os.path.join(CACHE, "facts", ".lock"), "w")
-    fcntl.flock(lock, fcntl.LOCK_EX)
     t0 = time.time()
+    pk = os.path.join(fdir, "facts.pickle")
+    if not os.path.exists(pk):
+        # pick a free build slot (each slot owns a cargo target dir, so patched scratch copies can be
+        # analysed in parallel); slot 0 is the one setup.sh warms
+        nslots = max(1, int(os.environ.get("AVROLINT_SLOTS", "4")))
+        lock = None
+        slot = 0
+        for i in range(nslots):
+            fh = open(os.path.join(CACHE, "facts", ".lock%d" % i), "w")
+            try:
+                fcntl.flock(fh, fcntl.LOCK_EX | fcntl.LOCK_NB)
+                lock, slot = fh, i
+                break
+            except OSError:
+                fh.close()
+        if lock is None:
+            lock = open(os.path.join(CACHE, "facts", ".lock0"), "w")
+            fcntl.flock(lock, fcntl.LOCK_EX)
+            slot = 0
+        try:
+            if not os.path.exists(pk):
+                _build(repo, features, fdir, key, nfiles, slot, t0)
+        finally:
+            fcntl.flock(lock, fcntl.LOCK_UN)
+            lock.close()
+    with open(pk, "rb") as fh:
+        out = pickle.load(fh)
+    out["_meta"]["cached"] = (time.time() - t0) < 1.0
     try:
-        pk = os.path.join(fdir, "facts.pickle")
-        if not os.path.exists(pk):
-            tmp = fdir + ".tmp"
-            shutil.rmtree(tmp, ignore_errors=True)
-            os.makedirs(tmp)
-            target = os.path.join(CACHE, "target")
-            os.makedirs(target, exist_ok=True)
-            # cargo's freshness cache would skip the wrapper: drop the members' fingerprints
-            fp = os.path.join(target, "debug", ".fingerprint")
-            if os.path.isdir(fp):
-                for d in os.listdir(fp):
-                    if d.startswith(("apache-avro", "apache_avro", "hello-wasm", "hello_wasm")):
-                        shutil.rmtree(os.path.join(fp, d), ignore_errors=True)
-            env = dict(os.environ)
-            env.update({
-                "LD_LIBRARY_PATH": sysroot() + "/lib",
-                "AVROLINT_OUT": tmp,
-                "AVROLINT_CRATES": ",".join(CRATES),
-                "RUSTFLAGS": "-Zmir-opt-level=0 -Awarnings",
-                "RUSTC_WORKSPACE_WRAPPER": DRIVER,
-                "CARGO_TARGET_DIR": target,
-                "CARGO_NET_OFFLINE": "true",
-            })
-            env.pop("RUSTC_WRAPPER", None)
-            cmd = ["cargo", "+nightly", "check", "--offline", "-p", "apache-avro", "-p", "apache-avro-derive"]
-            cmd += feature_args(features)
-            r = subprocess.run(cmd, cwd=repo, env=env, stdout=subprocess.PIPE, stderr=subprocess.STDOUT, text=True)
-            if r.returncode != 0:
-                sys.stderr.write(r.stdout[-6000:])
-                raise RuntimeError("fact extraction: cargo check failed (the tree does not compile?)")
-            out = {}
-            for f in sorted(os.listdir(tmp)):
-                if not f.endswith(".json") or f.endswith("-test.json"):
-                    continue
-                with open(os.path.join(tmp, f)) as fh:
-                    d = json.load(fh)
-                out[d["crate"]] = d
-            for c in CRATES:
-                if c not in out:
-                    raise RuntimeError("fact extraction: no fact file for crate %s (wrapper skipped?)" % c)
-            out["_meta"] = {"repo": repo, "tree_hash": key, "files_hashed": nfiles, "features": features,
-                            "extract_wall_s": round(time.time() - t0, 2)}
-            with open(os.path.join(tmp, "facts.pickle"), "wb") as fh:
-                pickle.dump(out, fh, protocol=pickle.HIGHEST_PROTOCOL)
-            for f in os.listdir(tmp):
-                if f.endswith(".json"):
-                    os.unlink(os.path.join(tmp, f))
-            shutil.rmtree(fdir, ignore_errors=True)
-            os.rename(tmp, fdir)
-            _gc(os.path.join(CACHE, "facts"), keep=24)
-        with open(pk, "rb") as fh:
-            out = pickle.load(fh)
-        out["_meta"]["cached"] = (time.time() - t0) < 1.0
         os.utime(fdir)
-        return out
-    finally:
-        fcntl.flock(lock, fcntl.LOCK_UN)
-        lock.close()
+    except OSError:
+        pass
+    return out
+
+
+def _build(repo, features, fdir, key, nfiles, slot, t0):
+    tmp = "%s.tmp%d" % (fdir, os.getpid())
+    shutil.rmtree(tmp, ignore_errors=True)
+    os.makedirs(tmp)
+    target = os.path.join(CACHE, "target" if slot == 0 else "target-%d" % slot)
+    os.makedirs(target, exist_ok=True)
+    # cargo's freshness cache would skip the wrapper: drop the members' fingerprints
+    fp = os.path.join(target, "debug", ".fingerprint")
+    if os.path.isdir(fp):
+        for d in os.listdir(fp):
+            if d.startswith(("apache-avro", "apache_avro", "hello-wasm", "hello_wasm")):
+                shutil.rmtree(os.path.join(fp, d), ignore_errors=True)
+    env = dict(os.environ)
+    env.update({
+        "LD_LIBRARY_PATH": sysroot() + "/lib",
+        "AVROLINT_OUT": tmp,
+        "AVROLINT_CRATES": ",".join(CRATES),
+        "RUSTFLAGS": "-Zmir-opt-level=0 -Awarnings",
+        "RUSTC_WORKSPACE_WRAPPER": DRIVER,
+        "CARGO_TARGET_DIR": target,
+        "CARGO_NET_OFFLINE": "true",
+    })
+    env.pop("RUSTC_WRAPPER", None)
+    cmd = ["cargo", "+nightly", "check", "--offline", "-p", "apache-avro", "-p", "apache-avro-derive"]
+    cmd += feature_args(features)
+    r = subprocess.run(cmd, cwd=repo, env=env, stdout=subprocess.PIPE, stderr=subprocess.STDOUT, text=True)
+    if r.returncode != 0:
+        sys.stderr.write(r.stdout[-6000:])
+        shutil.rmtree(tmp, ignore_errors=True)
+        raise RuntimeError("fact extraction: cargo check failed (the tree does not compile?)")
+    out = {}
+    for f in sorted(os.listdir(tmp)):
+        if not f.endswith(".json") or f.endswith("-test.json"):
+            continue
+        with open(os.path.join(tmp, f)) as fh:
+            d = json.load(fh)
+        out[d["crate"]] = d
+    for c in CRATES:
+        if c not in out:
+            shutil.rmtree(tmp, ignore_errors=True)
+            raise RuntimeError("fact extraction: no fact file for crate %s (wrapper skipped?)" % c)
+    out["_meta"] = {"repo": repo, "tree_hash": key, "files_hashed": nfiles, "features": features,
+                    "extract_wall_s": round(time.time() - t0, 2)}
+    with open(os.path.join(tmp, "facts.pickle"), "wb") as fh:
+        pickle.dump(out, fh, protocol=pickle.HIGHEST_PROTOCOL)
+    for f in os.listdir(tmp):
+        if f.endswith(".json"):
+            os.unlink(os.path.join(tmp, f))
+    shutil.rmtree(fdir, ignore_errors=True)
+    try:
+        os.rename(tmp, fdir)
+    except OSError:
+        shutil.rmtree(tmp, ignore_errors=True)
+    _gc(os.path.join(CACHE, "facts"), keep=40)
 
 
 def _gc(d, keep):
-    ents = [os.path.join(d, e) for e in os.listdir(d) if os.path.isdir(os.path.join(d, e)) and not e.endswith(".tmp")]
+    ents = [os.path.join(d, e) for e in os.listdir(d) if os.path.isdir(os.path.join(d, e)) and ".tmp" not in e]
     ents.sort(key=lambda p: os.stat(p).st_mtime, reverse=True)
     for p in ents[keep:]:
         shutil.rmtree(p, ignore_errors=True)
